@@ -57,13 +57,20 @@ _S = {"ctx": None, "tier": "quick", "ops": None, "mf": None, "engine": None}
 
 
 def thresholds(tier):
+  # about one third of what the unchanged tree measures (quick, seed 0: 72k type pairs, 3.45M products,
+  # 22k brute-forced type pairs with 2.0M products, 74k contract evaluations)
   if tier == "quick":
-    return {"type_pairs": 18000, "products_checked": 700000, "brute_force_type_pairs": 900,
-            "brute_force_products": 40000, "contract_evals": 18000, "conversions_checked": 1000,
-            "impl_kind_checked": 18000, "zero_checked": 5000, "distinct_nontrivial": 9000}
-  return {"type_pairs": 150000, "products_checked": 6000000, "brute_force_type_pairs": 2500,
-          "brute_force_products": 400000, "contract_evals": 150000, "conversions_checked": 3000,
-          "impl_kind_checked": 150000, "zero_checked": 40000, "distinct_nontrivial": 80000}
+    return {"type_pairs": 24000, "products_checked": 1100000, "brute_force_type_pairs": 7000,
+            "brute_force_products": 650000, "contract_evals": 24000, "conversions_checked": 500,
+            "impl_kind_checked": 24000, "zero_checked": 15000, "float_pairs": 500,
+            "random_wide_pairs": 2000, "distinct_nontrivial": 17000}
+  return THOROUGH_THRESHOLDS
+
+
+THOROUGH_THRESHOLDS = {"type_pairs": 150000, "products_checked": 6000000, "brute_force_type_pairs": 7000,
+                       "brute_force_products": 650000, "contract_evals": 150000, "conversions_checked": 1000,
+                       "impl_kind_checked": 150000, "zero_checked": 40000, "float_pairs": 1000,
+                       "random_wide_pairs": 10000, "distinct_nontrivial": 80000}
 
 
 # ------------------------------------------------------------ workload
